@@ -430,7 +430,20 @@ fn direct_sequence(seed: u64, nops: usize, st: &mut Stats) -> Option<(String, St
                 }
             },
             9 if container => {
-                let attrs = vec![Attribute { name: qual("", *rng.pick(&["a", "b", "c"])), value: "2".into() }, Attribute { name: qual("", "d"), value: "3".into() }];
+                // names that share a local name across namespaces (href / xlink:href, lang / xml:lang): "an attribute
+                // with that name" means the qualified name, not the local name
+                let mut attrs = vec![Attribute { name: qual("", *rng.pick(&["a", "b", "c"])), value: "2".into() }, Attribute { name: qual("", "d"), value: "3".into() }];
+                if rng.chance(1, 2) {
+                    const XLINK: &str = "http://www.w3.org/1999/xlink";
+                    const XML: &str = "http://www.w3.org/XML/1998/namespace";
+                    let pool: [(Option<&str>, &str, &str); 8] = [(None, "", "href"), (Some("xlink"), XLINK, "href"), (None, "", "lang"), (Some("xml"), XML, "lang"), (Some("xlink"), XLINK, "a"), (Some("xml"), XML, "d"), (None, "", "title"), (Some("xlink"), XLINK, "title")];
+                    let first = rng.below(pool.len());
+                    for (k, value) in [(first, "n1"), ((first + 1 + rng.below(pool.len() - 1)) % pool.len(), "n2")] {
+                        let (p, ns, l) = pool[k];
+                        attrs.push(Attribute { name: html5ever::QualName::new(p.map(html5ever::Prefix::from), html5ever::Namespace::from(ns), html5ever::LocalName::from(l)), value: value.into() });
+                    }
+                    st.count("direct:add-attrs-with-namespaced-names");
+                }
                 log.push(format!("#{opno} add_attrs_if_missing(n{})", target.1.id));
                 tee.add_attrs_if_missing(&target, attrs);
                 st.count("direct:add-attrs");
